@@ -143,7 +143,58 @@ def run(tier):
         c13.cli_version_leg(ck, tier)
     except (ImportError, AttributeError):
         ck.notes.append('CLI leg (banner -> (rec)+ / compatibility) not run: C13 machinery not present')
+    sequence_leg(ck, tier)
     return ck.finish()
+
+
+def sequence_leg(ck, tier):
+    """Several servers of one product, at versions on both sides of first-appeared releases, audited one after the other in a
+    single invocation (-T, one thread): every audit's availability judgements are those of its own version (TLC's), whatever
+    was audited before it."""
+    import json as _json
+    from harness import runner
+    from checks import multi, rating
+    seqs = [('OpenSSH', [(6, 4), (10, 0), (6, 5), (9, 9), (7, 3), (9, 10)]),
+            ('libssh', [(0, 10, 6), (0, 6, 4), (0, 7, 0), (0, 11, 0)]),
+            ('Dropbear SSH', [(2019, 78), (2022, 83), (2013, 56), (2020, 79)])]
+    cases, groups = [], []
+    for product, versions in seqs:
+        for order in (versions, list(reversed(versions))):
+            g = []
+            for v in order:
+                c = rating.mk_case(len(cases) + 1, kex=['diffie-hellman-group14-sha1', 'curve25519-sha256'], key=['ssh-rsa'], enc=['aes256-ctr'],
+                                   mac=['hmac-sha2-256'], sw={'product': product, 'c': list(v), 'p': ['none', 0]}, hk={'ssh-rsa': (3072, '', 0)})
+                cases.append(c)
+                g.append(c)
+            groups.append(g)
+    expected = rating.evaluate(ck, cases, workers=None)
+    scs = []
+    for g in groups:
+        sc, labels = multi.scenario([('server', rating.server_cfg(c)) for c in g], 1, tuple(range(len(g))), json_out=True)
+        scs.append((sc, labels, g))
+    for (sc, labels, g), r in zip(scs, runner.run_many([x[0] for x in scs])):
+        ck.evaluated()
+        if r.get('harness_error') or r.get('hang'):
+            raise common.Machinery('sequence run failed: %r' % (r.get('harness_error') or 'hang'))
+        replay = {'banners': [rating.render_sw(c['sw']) for c in g], 'argv': sc['argv'], 'exit': r['exit'], 'stdout': r['stdout'][-3000:]}
+        try:
+            doc = _json.loads(r['stdout'])
+        except ValueError:
+            ck.violation('sequence-json-unparsable', 'stdout of a -T -j run is not JSON', replay)
+            continue
+        bad = False
+        for el in doc:
+            lab = '%s:%s' % (el.get('host') or el.get('target', '').split(':')[0], el.get('port', 22))
+            lab = lab if lab in labels else el.get('target')
+            if lab not in labels:
+                continue
+            c = g[labels.index(lab)]
+            for sig, desc in rating.compare_recs(c, expected[c['id']], js=el):
+                ck.violation('sequence-' + sig, '[%s, audited after %r] %s' % (rating.render_sw(c['sw']), [rating.render_sw(x['sw']) for x in g[:g.index(c)]], desc), replay)
+                bad = True
+        if not bad:
+            ck.cov['traces_validated_against_impl'] += 1
+            ck.nontrivial(('sequence', tuple(rating.render_sw(c['sw']) for c in g)))
 
 
 def _sign(x):
